@@ -50,7 +50,7 @@ def run(tier, pid=PID):
     chk.add_tlc(r)
     # 2. real runs, trace validation
     cases = SC.all_cases(shapes, None if thorough else 14, rnd)
-    nsched = 10 if thorough else 3
+    nsched = 14 if thorough else 4
     runs = SC.run_real(cases, nsched, chk.scratch, chk.seed)
     for h in runs:
         chk.evaluated((h.shape_name, tuple(h.oa), h.sched))
@@ -87,7 +87,7 @@ def replay(path):
     d = json.load(open(path))["replay"]
     chk = Check(PID, "quick")
     seed_, bm, eb, cw = d["sched"]
-    h = ctl.run_case(d["shape"], d["oa"], chk.scratch, ctl.RandomPolicy(seed_, burst_max=bm, env_bias=eb, ctrl_weight=cw))
+    h = ctl.run_case(d["shape"], d["oa"], chk.scratch, ctl.RandomPolicy(seed_, burst_max=abs(bm), env_bias=eb, ctrl_weight=cw, eager_internal=bm < 0))
     h.sid = 1
     results, tl = SC.validate_traces("c01replay", [d["shape"]], [h], fixobs=FIXOBS, props=("TLaunchSafe", "TFinalAbsorbing", "TNoRunAfterFinal"))
     for e in h.trace:
